@@ -50,6 +50,7 @@
 #include "tbb/arena.h"
 #include "tbb/thread_data.h"
 #include "tbb/task_dispatcher.h"
+#include "tbb/thread_control_monitor.h"
 #include <cstdio>
 #include <cstring>
 #include <map>
@@ -67,6 +68,7 @@ struct Susp {
     // ghost / monitor state (plain: only the baton holder runs)
     int cb_tid = -1, cont_tid = -1, task_tid = -1;
     int cb_runs = 0, resume_calls = 0, conts = 0, in_cont = 0, cont_done = 0;
+    bool in_group = false, task_done = false;   // the suspension happens inside a task of the task_group g_tg; that task's body has returned
     int work_by_suspender = 0;       // other tasks the suspending thread executed between the callback and the continuation
     bool cont_before_call = false, concurrent_cont = false;
     // liveness / dispatch-context observations
@@ -103,13 +105,194 @@ static volatile int g_leaver0 = -1;
 
 static void viol(const std::string& s) { g_viol.push_back(s); }
 
-static void see_sp(suspend_point_type* sp) { if (sp) g_sps.insert(sp); }
-static std::set<arena*> g_seen_arenas;
+// ---- white-box sampler (no source hooks): at every scheduling point the thread that just ran is inspected (plain reads
+// under the baton) and the CHANGES since the previous scheduling point are written into the event log as notes, at the exact
+// position: which dispatcher the thread is attached to (`att`), its my_post_resume_action / argument (`actset` / `actclr`),
+// the ring of its arena's co-cache (`rpop` / `rpush` with the replaced = destroyed entry), newly seen dispatchers (`newd`),
+// the `outermost` property of the current dispatcher (`lvl`).  Dispatchers get generation ids in order of first sight
+// (a destroyed dispatcher's address may be reused by a later one: it then gets a new id); the state words of their suspend
+// points are named `D<id>.ss` / `D<id>.rc` from the position of the `reg` note on.
+struct Reg { const void* addr; uint64_t val; std::string name; bool is_val; };
+static std::vector<Reg> g_regs;
+struct DInfo { task_dispatcher* d; suspend_point_type* sp; std::string kind; bool had_sp; };
+static std::vector<DInfo> g_dinfo;
+static std::map<task_dispatcher*, int> g_did;                 // live dispatcher -> id
+static std::map<const suspend_point_type*, int> g_spid;       // live suspend point -> dispatcher id
+static std::vector<arena*> g_arena_ix;                        // arena index = position
+struct RingSnap { std::vector<task_dispatcher*> buf; unsigned head = 0; bool init = false; };
+static std::map<arena*, RingSnap> g_ring;
+struct ThSnap { task_dispatcher* d = nullptr; int act = 4; void* arg = nullptr; int outer = -1; };
+static std::map<int, ThSnap> g_thsnap;
+static std::set<arena*> g_dead_arenas;
+static std::vector<arena*> g_watch;          // arenas whose co-cache is followed: alive from watch_arena() until their free_arena
+static void watch_arena(arena* a) { if (a) { for (arena* x : g_watch) if (x == a) return; g_watch.push_back(a); } }
+static int g_evictions = 0, g_ring_pops = 0, g_ring_pushes = 0, g_creates = 0, g_switches = 0;
+
+static void add_reg(const void* addr, uint64_t val, const std::string& name, bool is_val) {
+    g_regs.push_back(Reg{addr, val, name, is_val});
+    verif::note("reg", g_regs.size() - 1, 0);
+}
+static int arena_index(arena* a) {
+    for (size_t i = 0; i < g_arena_ix.size(); ++i) if (g_arena_ix[i] == a) return (int)i;
+    g_arena_ix.push_back(a);
+    // the streams a resume task is published into (named from now on: a temporary arena is gone before the run ends)
+    std::string ix = std::to_string(g_arena_ix.size() - 1);
+    add_reg(&a->my_resume_task_stream.population, 0, "rts" + ix, false);
+#if __TBB_PREVIEW_CRITICAL_TASKS
+    add_reg(&a->my_critical_task_stream.population, 0, "cts" + ix, false);
+#endif
+    return (int)g_arena_ix.size() - 1;
+}
+static void forget_disp(task_dispatcher* d);
+static int disp_id(task_dispatcher* d, arena* a) {
+    auto it = g_did.find(d);
+    // a dispatcher's suspend point never changes while it lives: a different one at the same address means that the old
+    // dispatcher was destroyed (with an arena that is not followed) and the memory is reused by a new one
+    if (it != g_did.end() && g_dinfo[it->second].sp && d->m_suspend_point != g_dinfo[it->second].sp) { forget_disp(d); it = g_did.end(); }
+    int id;
+    if (it == g_did.end()) {
+        id = (int)g_dinfo.size();
+        std::string kind = "co " + std::to_string(a ? arena_index(a) : -1);
+        if (a) for (unsigned i = 0; i < a->my_num_slots; ++i)
+            if (a->my_slots[i].my_default_task_dispatcher == d) kind = "slot " + std::to_string(arena_index(a)) + "." + std::to_string(i);
+        g_dinfo.push_back(DInfo{d, nullptr, kind, false});
+        g_did[d] = id;
+        add_reg(nullptr, (uint64_t)d, "D" + std::to_string(id), true);
+        verif::note("newd", (uint64_t)id, kind[0] == 'c' ? 1 : 0);
+    } else id = it->second;
+    DInfo& x = g_dinfo[id];
+    if (d->m_suspend_point && x.sp != d->m_suspend_point) {
+        x.sp = d->m_suspend_point; x.had_sp = true;
+        g_spid[x.sp] = id;
+        std::string n = "D" + std::to_string(id);
+        add_reg(&x.sp->m_stack_state, 0, n + ".ss", false);
+        add_reg(&x.sp->m_is_owner_recalled, 0, n + ".rc", false);
+        add_reg(nullptr, (uint64_t)x.sp, n, true);
+    }
+    return id;
+}
+static void forget_disp(task_dispatcher* d) {
+    auto it = g_did.find(d);
+    if (it == g_did.end()) return;
+    if (g_dinfo[it->second].sp) g_spid.erase(g_dinfo[it->second].sp);
+    g_did.erase(it);
+}
+// the co-cache ring of a watched arena: at most one operation happened since the previous scheduling point (every operation
+// is bracketed by the lock and the unlock of my_co_cache_mutex, both scheduling points).  Every thread looks at every watched
+// arena, so the operations of a thread that is not attached to the arena (free_arena by the last leaver) are seen too.
+static void sample_ring(arena* a) {
+    // -- the co-cache ring of the thread's arena: at most one operation happened since the previous scheduling point
+    {
+        arena_co_cache& cc = a->my_co_cache;
+        RingSnap& rs = g_ring[a];
+        unsigned cap = cc.my_max_index + 1;
+        if (!rs.init) { rs.buf.assign(cc.my_co_scheduler_cache, cc.my_co_scheduler_cache + cap); rs.head = cc.my_head; rs.init = true;
+                        verif::note("rcap", (uint64_t)arena_index(a), cap); }
+        else {
+            std::vector<task_dispatcher*> now(cc.my_co_scheduler_cache, cc.my_co_scheduler_cache + cap);
+            if (now != rs.buf || cc.my_head != rs.head) {
+                unsigned oh = rs.head, prev = oh == 0 ? cap - 1 : oh - 1, next = oh + 1 == cap ? 0 : oh + 1;
+                std::vector<task_dispatcher*> exp = rs.buf;
+                if (cc.my_head == prev && rs.buf[prev]) {
+                    task_dispatcher* got = rs.buf[prev];
+                    verif::note("rpop", (uint64_t)disp_id(got, a), now[prev] == nullptr ? 1 : 0);   // b: was the slot cleared
+                    exp[prev] = now[prev];
+                    ++g_ring_pops;
+                } else if (cc.my_head == next && now[oh]) {
+                    int nid = disp_id(now[oh], a);
+                    long ev = -1;
+                    if (rs.buf[oh]) { ev = disp_id(rs.buf[oh], a); ++g_evictions; }
+                    verif::note("rpush", (uint64_t)nid, (uint64_t)ev);
+                    if (rs.buf[oh]) forget_disp(rs.buf[oh]);
+                    exp[oh] = now[oh];
+                    ++g_ring_pushes;
+                }
+                if (exp != now) { verif::note("ringerr", (uint64_t)arena_index(a), 0); viol("co-cache ring changed in a way that is neither one push nor one pop"); }
+                rs.buf = now; rs.head = cc.my_head;
+            }
+            // free_arena: my_references is 0 and cleanup() pops until the ring is empty; the sample taken inside the last
+            // (empty) pop — lock held, nothing to return — is the last look at this arena: its memory is freed next
+            {
+                unsigned prev = cc.my_head == 0 ? cap - 1 : cc.my_head - 1;
+                bool locked = false; memcpy(&locked, (const void*)&cc.my_co_cache_mutex, sizeof(bool));
+                unsigned refs_now = 1; memcpy(&refs_now, (const void*)&a->my_references, sizeof refs_now);      // raw read: no scheduling point inside pick()
+                if (refs_now == 0 && locked && cc.my_co_scheduler_cache[prev] == nullptr) {
+                    verif::note("arena_dead", (uint64_t)arena_index(a), 0);
+                    g_dead_arenas.insert(a);
+                    g_ring.erase(a);
+                    return;
+                }
+            }
+            // monitor: no dispatcher twice in the ring
+            for (size_t i = 0; i < now.size(); ++i) for (size_t j = i + 1; j < now.size(); ++j)
+                if (now[i] && now[i] == now[j]) viol("the same dispatcher sits in two slots of the co-cache");
+        }
+    }
+}
+static void sample_whitebox(int tid) {
+    if (tid < 0) return;
+    // (also for threads that are unknown to the library: a foreign thread that drops the last reference runs free_arena)
+    for (arena* w : g_watch) if (!g_dead_arenas.count(w)) sample_ring(w);
+    thread_data* td = governor::get_thread_data_if_initialized();
+    if (!td) return;
+    arena* a = td->my_arena_slot ? td->my_arena : nullptr;      // attached to a slot: the arena is alive ...
+    if (a && g_dead_arenas.count(a)) a = nullptr;               // ... unless it has just been destroyed (free_arena)
+    ThSnap& ts = g_thsnap[tid];
+    // -- the post-resume action
+    int act = (int)td->my_post_resume_action;
+    void* arg = td->my_post_resume_arg;
+    if (act != ts.act || arg != ts.arg) {
+        if (act == (int)task_dispatcher::post_resume_action::none) verif::note("actclr", (uint64_t)ts.act, 0);
+        else {
+            long argid = -1;
+            if (act == (int)task_dispatcher::post_resume_action::cleanup) argid = disp_id(static_cast<task_dispatcher*>(arg), a);
+            else if (act == (int)task_dispatcher::post_resume_action::notify)
+                argid = disp_id(&static_cast<suspend_point_type*>(arg)->m_resume_task.m_target, a); else if (act == (int)task_dispatcher::post_resume_action::register_waiter) {
+                auto* node = static_cast<thread_control_monitor::resume_context*>(arg);
+                argid = disp_id(node->my_curr_dispatcher, a);
+                add_reg(&node->my_notify_calls, 0, "wn" + std::to_string(argid), false);
+            }
+            verif::note("actset", (uint64_t)act, (uint64_t)argid);
+        }
+        ts.act = act; ts.arg = arg;
+    }
+    // -- suspend points are created lazily (get_suspend_point) for the current dispatcher, the one that is being left and the
+    // slot's default dispatcher: look at all three at every scheduling point, so that a suspend point is registered before
+    // the first access to its words
+    if (a && td->my_arena_slot && td->my_arena_slot->my_default_task_dispatcher) disp_id(td->my_arena_slot->my_default_task_dispatcher, a);
+    if (ts.d && g_did.count(ts.d)) disp_id(ts.d, a);
+    // -- which dispatcher is the thread attached to
+    task_dispatcher* d = td->my_task_dispatcher;
+    if (d && d != ts.d) {
+        int id = disp_id(d, a);
+        int outer = d->m_properties.outermost ? 1 : 0;
+        verif::note("att", (uint64_t)id, (uint64_t)outer);
+        ++g_switches;
+        ts.d = d; ts.outer = outer;
+        // monitor: a dispatcher a thread runs on is not in a co-cache
+        for (auto& kv : g_ring) for (task_dispatcher* x : kv.second.buf)
+            if (x == d) viol("a thread is attached to a dispatcher that sits in the co-cache (dispatcher used while cached)");
+    } else if (d) {
+        disp_id(d, a);      // a suspend point may have been created meanwhile
+        int outer = d->m_properties.outermost ? 1 : 0;
+        if (outer != ts.outer) { verif::note("lvl", (uint64_t)g_did[d], (uint64_t)outer); ts.outer = outer; }
+    }
+}
+static void see_sp(suspend_point_type* sp) { if (sp) { g_sps.insert(sp); disp_id(&sp->m_resume_task.m_target, sp->m_arena); } }
 static void see_current() {
     thread_data* td = governor::get_thread_data_if_initialized();
-    if (td && td->my_task_dispatcher) see_sp(td->my_task_dispatcher->m_suspend_point);
-    if (td && td->my_arena) g_seen_arenas.insert(td->my_arena);
+    if (td && td->my_task_dispatcher && td->my_arena_slot) disp_id(td->my_task_dispatcher, td->my_arena);
 }
+// monitor, called where the harness's own code starts to run on a thread (a task body, a suspend callback): an action set
+// before the last switch must have been executed and cleared by now
+static void check_no_pending_action(const char* where) {
+    thread_data* td = governor::get_thread_data_if_initialized();
+    if (td && td->my_post_resume_action != task_dispatcher::post_resume_action::none)
+        viol(std::string("a post-resume action is still pending when the thread runs ") + where + " (action skipped)");
+}
+
+static void see_sp(suspend_point_type* sp);
+static void see_current();
 
 static void do_resume(int i, suspend_point_type* sp) {
     S[i].resume_calls++;
@@ -120,6 +303,7 @@ static void do_resume(int i, suspend_point_type* sp) {
 
 static void other_work(int j) {
     see_current();
+    check_no_pending_action("a task");
     g_work_runs++;
     int me = verif::self();
     for (int i = 0; i < g_NS; ++i)
@@ -132,6 +316,7 @@ static void suspending_task(int i);
 // a task spawned / enqueued BEFORE suspension i starts; `resumer`: it is the one that calls resume
 static void prework(int i, bool resumer) {
     see_current();
+    check_no_pending_action("a task");
     int me = verif::self();
     S[i].prework_tid = me;
     S[i].prework_during = S[i].cb_runs && !S[i].conts;
@@ -148,6 +333,7 @@ static void prework(int i, bool resumer) {
 
 static void do_suspend(int i) {
     see_current();
+    check_no_pending_action("the code that calls suspend");
     S[i].task_tid = verif::self();
     char mode = lower(g_modes[i]);
     bool iso = isolated_mode(g_modes[i]);
@@ -159,6 +345,7 @@ static void do_suspend(int i) {
         if (mode == 'i' && g_tg) g_tg->run([i] { prework(i, true); });      // isolated work (carries the region's tag)
         tbb::task::suspend([i, mode](tbb::task::suspend_point sp) {
             see_sp(sp);
+            check_no_pending_action("a suspend callback");
             S[i].cb_runs++;
             S[i].cb_tid = verif::self();
             S[i].td = governor::get_thread_data();
@@ -177,6 +364,7 @@ static void do_suspend(int i) {
             } else if (mode == 't') {
                 g_tg->run([i, sp] { see_current(); do_resume(i, sp); });
             } else {
+                // (modes f, w, c, p, q, i, x: somebody else calls resume later)
                 if (i == 0) { g_leaver0 = verif::self(); g_published0 = true; }
                 S[i].sp.store(sp);
                 (void)S[i].sp.load();     // a scheduling point inside the callback after the suspend point became visible
@@ -191,20 +379,37 @@ static void do_suspend(int i) {
     S[i].conts++;
     S[i].cont_tid = verif::self();
     see_current();
+    check_no_pending_action("the continuation of a suspended task");
     verif::note("cont", (uint64_t)i, 0);
     --S[i].in_cont;
     S[i].cont_done = 1;
+    // mode x of the next suspension: it is resumed by THIS task, which itself was suspended and resumed
+    if (i + 1 < g_NS && lower(g_modes[i + 1]) == 'x') {
+        suspend_point_type* sp;
+        while (!(sp = S[i + 1].sp.load())) verif::pause_point();
+        do_resume(i + 1, sp);
+    }
 }
 
 static void suspending_task(int i) {
+    S[i].in_group = g_tg != nullptr && g_container != "pfor" && g_container != "npfor";
     verif::note("task_begin", (uint64_t)i, 0);
-    do_suspend(i);
+    if (g_flags & 16) {
+        // the suspension happens inside task_arena::execute of ANOTHER arena (nested through a different arena)
+        tbb::task_arena inner(2);
+        inner.execute([i] { do_suspend(i); });
+    } else do_suspend(i);
+    S[i].task_done = true;
     verif::note("task_end", (uint64_t)i, 0);
+}
+// nest bit 3: ONE task performs all the suspensions, one after the other (repeated suspension of one task)
+static void chain_task(int first) {
+    for (int i = first; i < g_NS; ++i) suspending_task(i);
 }
 
 static void check_after_wait(const char* what) {
     for (int i = 0; i < g_NS; ++i) {
-        if (g_container == "outer" && i == 0) continue;
+        if ((g_container == "outer" || g_container == "exec") && i == 0) continue;
         if (has_cancel_mode() && !S[i].cb_runs) continue;     // the group was cancelled before this task started: legitimately skipped
         if (!S[i].cont_done) viol(std::string(what) + " returned while suspension " + std::to_string(i) + " had not continued (wait completed over a suspended task)");
     }
@@ -220,14 +425,18 @@ static void tg_scenario(int first, bool outer0 = false) {
         do_suspend(0);
         if (verif::self() != me) { g_outer_ok = false; viol("code after an outermost suspend continued on a different thread than the one that called suspend"); }
     }
-    if (g_flags & 1) {
+    if (g_flags & 8) {
+        if (first < g_NS) tg.run([first] { chain_task(first); });
+    } else if (g_flags & 1) {
         // nested: the callback of suspension i spawns the task of suspension i+1 (the outermost suspension did that already)
         if (first < g_NS && !outer0) tg.run([first] { suspending_task(first); });
     } else {
         for (int i = first; i < g_NS; ++i) tg.run([i] { suspending_task(i); });
     }
     for (int j = 0; j < g_NW; ++j) tg.run([j] { other_work(j); });
+    int waiter = verif::self();
     tg.wait();
+    if (verif::self() != waiter) viol("task_group::wait returned on a different thread than the one that called it (wait completed on the wrong stack)");
     check_after_wait("task_group::wait");
     g_tg = nullptr;
 }
@@ -238,7 +447,9 @@ static void nwait_scenario() {
     tg.run([&inner] {
         see_current();
         verif::note("nested_wait_begin", 0, 0);
+        int waiter = verif::self();
         if (g_flags & 2) tbb::this_task_arena::isolate([&inner] { inner.wait(); }); else inner.wait();
+        (void)waiter;     // (a nested wait lives in a task: the stack it is on may legitimately be continued by another thread)
         for (int i = 0; i < g_NS; ++i)
             if (!S[i].cont_done) viol("nested task_group::wait returned while suspension " + std::to_string(i) + " had not continued (wait completed over a suspended task)");
         verif::note("nested_wait_end", 0, 0);
@@ -251,37 +462,97 @@ static void nwait_scenario() {
     g_tg = nullptr;
 }
 
-static void pfor_scenario() {
+static void pfor_inner() {
     int n = g_NS + g_NW;
     tbb::parallel_for(tbb::blocked_range<int>(0, n, 1), [](const tbb::blocked_range<int>& r) {
         for (int k = r.begin(); k < r.end(); ++k) {
-            if (k < g_NS) suspending_task(k); else other_work(k - g_NS);
+            if (g_flags & 8) { if (k == 0) chain_task(0); else if (k >= g_NS) other_work(k - g_NS); }
+            else if (k < g_NS) suspending_task(k); else other_work(k - g_NS);
+        }
+    }, tbb::simple_partitioner{});
+}
+static void pfor_scenario() {
+    int waiter = verif::self();
+    pfor_inner();
+    if (verif::self() != waiter) viol("parallel_for returned on a different thread than the one that called it (wait completed on the wrong stack)");
+    check_after_wait("parallel_for");
+}
+// a parallel_for whose iteration 0 runs the inner parallel_for with the suspensions (nested parallel algorithms)
+static void npfor_scenario() {
+    tbb::parallel_for(tbb::blocked_range<int>(0, 2, 1), [](const tbb::blocked_range<int>& r) {
+        for (int k = r.begin(); k < r.end(); ++k) {
+            if (k == 0) {
+                pfor_inner();
+                for (int i = 0; i < g_NS; ++i)
+                    if (!S[i].cont_done) viol("inner parallel_for returned while suspension " + std::to_string(i) + " had not continued (wait completed over a suspended task)");
+            } else other_work(100);
         }
     }, tbb::simple_partitioner{});
     check_after_wait("parallel_for");
+}
+
+// ---- a CRITICAL task that suspends (container crit): submitted white-box with r1::submit(..., as_critical = 1); while it runs
+// its stack has m_properties.critical_task_allowed == false; the resume task of such a stack must be published into the
+// critical stream, and the state must be the same when the task continues
+struct CritTask : tbb::detail::d1::task {
+    int i = 0; std::atomic<int> done{0};
+    tbb::detail::d1::task* execute(tbb::detail::d1::execution_data&) override {
+        see_current();
+        thread_data* td = governor::get_thread_data();
+        task_dispatcher* d = td->my_task_dispatcher;
+        bool before = d->m_properties.critical_task_allowed;
+        if (before) viol("a critical task runs on a stack whose critical_task_allowed is true");
+        verif::note("crit_begin", (uint64_t)i, before ? 0 : 1);
+        suspending_task(i);
+        bool after = d->m_properties.critical_task_allowed;
+        if (after != before) viol("the critical-task state of the stack changed across the suspension of its task (critical state not kept)");
+        if (governor::get_thread_data()->my_task_dispatcher != d) viol("the task continued on another dispatcher than the one it was suspended on");
+        verif::note("crit_end", (uint64_t)i, after ? 0 : 1);
+        done.store(1);
+        return nullptr;
+    }
+    tbb::detail::d1::task* cancel(tbb::detail::d1::execution_data&) override { done.store(1); return nullptr; }
+};
+static CritTask g_crit[MAXS];
+static void crit_scenario() {
+    tbb::task_group tg;
+    tbb::task_group_context cctx;
+    arena* a = governor::get_thread_data()->my_arena;
+    verif::note("submit_begin", 0, 0);
+    for (int i = 0; i < g_NS; ++i) { g_crit[i].i = i; tbb::detail::r1::submit(g_crit[i], cctx, a, /*as_critical*/ 1); }
+    verif::note("submit_end", 0, 0);
+    for (int j = 0; j < g_NW; ++j) tg.run([j] { other_work(j); });
+    // every dispatch loop looks at the critical stream first
+    for (;;) {
+        bool all = true;
+        for (int i = 0; i < g_NS; ++i) if (!g_crit[i].done.load()) all = false;
+        if (all) break;
+        tg.run([] {});
+        tg.wait();
+        verif::pause_point();
+    }
+    tg.wait();
+    check_after_wait("the wait for the critical tasks");
 }
 
 static std::vector<arena*> g_arenas;
 
 static void collect(arena* a) {
     if (!a) return;
-    for (unsigned i = 0; i < a->my_num_slots; ++i) {
-        task_dispatcher* d = a->my_slots[i].my_default_task_dispatcher;
-        if (d && d->m_suspend_point) { g_sps.insert(d->m_suspend_point); g_spkind[d->m_suspend_point] = "slot " + std::to_string(g_arenas.size()) + "." + std::to_string(i); }
-        verif::name_addr(&a->my_slots[i].my_is_occupied, "occ" + std::to_string(g_arenas.size()) + "." + std::to_string(i));
-    }
-    for (unsigned i = 0; i <= a->my_co_cache.my_max_index; ++i) {
-        task_dispatcher* d = a->my_co_cache.my_co_scheduler_cache[i];
-        if (d && d->m_suspend_point) g_sps.insert(d->m_suspend_point);
-    }
-    verif::name_addr(&a->my_resume_task_stream.population, "rts" + std::to_string(g_arenas.size()));
+    for (arena* x : g_arenas) if (x == a) return;
+    std::string ix = std::to_string(arena_index(a));
+    for (unsigned i = 0; i < a->my_num_slots; ++i)
+        verif::name_addr(&a->my_slots[i].my_is_occupied, "occ" + ix + "." + std::to_string(i));
+    verif::name_addr(&a->my_co_cache.my_co_cache_mutex, "cmx" + ix);
+    verif::name_addr(&a->my_references, "refs" + ix);
+    verif::name_addr(&a->my_resume_task_stream.population, "rts" + ix);
     // the words of the resume-versus-sleep hand-shake (Model/C20Sleep.lean): the arena's pool state, and the epoch and
     // wait-set size of the waiting-threads monitor (one monitor per threading_control, shared by all arenas)
-    verif::name_addr(&a->my_pool_state.my_state, "pool" + std::to_string(g_arenas.size()));
+    verif::name_addr(&a->my_pool_state.my_state, "pool" + ix);
     verif::name_addr(&a->get_waiting_threads_monitor().my_epoch, "mep");
     verif::name_addr(&a->get_waiting_threads_monitor().my_waitset.count, "wsz");
 #if __TBB_PREVIEW_CRITICAL_TASKS
-    verif::name_addr(&a->my_critical_task_stream.population, "cts" + std::to_string(g_arenas.size()));
+    verif::name_addr(&a->my_critical_task_stream.population, "cts" + ix);
 #endif
     g_arenas.push_back(a);
 }
@@ -289,6 +560,7 @@ static void collect(arena* a) {
 static void main_body() {
     tbb::global_control gc(tbb::global_control::max_allowed_parallelism, g_P);
     tbb::task_scheduler_handle h{tbb::attach{}};
+    watch_arena(governor::get_thread_data()->my_arena);
     if (g_container == "tg") {
         tg_scenario(0);
         collect(governor::get_thread_data()->my_arena);
@@ -300,6 +572,8 @@ static void main_body() {
         collect(governor::get_thread_data()->my_arena);
     } else if (g_container == "arena1") {
         tbb::task_arena ta(1);
+        ta.initialize();
+        watch_arena(ta.my_arena.load());
         ta.execute([] { tg_scenario(0); });
         collect(ta.my_arena.load());
         thread_data* td = governor::get_thread_data_if_initialized();
@@ -307,6 +581,22 @@ static void main_body() {
     } else if (g_container == "outer") {
         tg_scenario(1, true);
         collect(governor::get_thread_data()->my_arena);
+    } else if (g_container == "crit") {
+        crit_scenario();
+        collect(governor::get_thread_data()->my_arena);
+    } else if (g_container == "npfor") {
+        npfor_scenario();
+        collect(governor::get_thread_data()->my_arena);
+    } else if (g_container == "exec") {
+        // task_arena::execute into an arena of its own; the functor itself suspends (the outermost level of the nested
+        // arena's dispatcher), then runs the task_group scenario there
+        tbb::task_arena ta(g_P > 1 ? g_P : 2);
+        ta.initialize();
+        watch_arena(ta.my_arena.load());
+        ta.execute([] { tg_scenario(1, true); });
+        collect(ta.my_arena.load());
+        thread_data* td = governor::get_thread_data_if_initialized();
+        if (td) collect(td->my_arena);
     }
     // A program joins the threads that call tbb::task::resume before it shuts the library down.  (nest bit 2 skips this:
     // with max_allowed_parallelism 1, a resumer that is still between its push and advertise_new_work when the resumed
@@ -329,6 +619,8 @@ static void foreign_body(int k, int nf) {
             suspend_point_type* sp = S[mine[j]].sp.load();
             // mode w: resume only after the work that was spawned before the suspension has been executed
             if (sp && lower(g_modes[mine[j]]) == 'w' && !S[mine[j]].prework_done.load()) sp = nullptr;
+            // the next suspension is resumed by this one's continuation (mode x): it must have started before
+            if (sp && mine[j] + 1 < g_NS && lower(g_modes[mine[j] + 1]) == 'x' && !S[mine[j] + 1].sp.load()) sp = nullptr;
             if (sp) {
                 if (lower(g_modes[mine[j]]) == 'c' && g_tg) { verif::note("cancel_group", (uint64_t)mine[j], 0); g_tg->cancel(); }
                 do_resume(mine[j], sp);
@@ -369,7 +661,20 @@ struct TargetedSchedule : verif::Schedule {
 // For every suspension in progress: once the suspending thread is attached to another dispatcher than the one it
 // suspended, record that dispatcher's m_execute_data_ext.isolation (first value, and the maximum seen until the thread
 // runs a harness task or the suspension continues).
+static bool g_count_viol = false;
+static long g_count_samples = 0;
 static void sample_dispatch_context() {
+    // counter-level monitor of the covering wait: while a task of the task_group is suspended (or, generally, has started
+    // and its body has not returned) the reference count of the group's wait_context is not zero
+    if (g_tg && !g_count_viol) {
+        std::uint64_t rc = 1;
+        memcpy(&rc, (const void*)&g_tg->m_wait_vertex.m_wait.m_ref_count, sizeof rc);      // raw read: no scheduling point inside pick()
+        for (int i = 0; i < g_NS; ++i)
+            if (S[i].in_group && S[i].cb_runs && !S[i].task_done) {
+                ++g_count_samples;
+                if (rc == 0) { g_count_viol = true; viol("the wait_context of the task_group has count zero while suspension " + std::to_string(i) + " of a task of the group is in progress (wait completed over a suspended task)"); }
+            }
+    }
     for (int i = 0; i < g_NS; ++i) {
         Susp& x = S[i];
         if (!x.cb_runs || x.conts || !x.td || x.work_by_suspender) continue;
@@ -383,7 +688,11 @@ static void sample_dispatch_context() {
 struct Sampling : verif::Schedule {
     verif::Schedule& in;
     explicit Sampling(verif::Schedule& s) : in(s) {}
-    int pick(int cur, const std::vector<int>& en, size_t step) override { sample_dispatch_context(); return in.pick(cur, en, step); }
+    int pick(int cur, const std::vector<int>& en, size_t step) override {
+        sample_dispatch_context();
+        if (cur >= 0 && cur == verif::self()) sample_whitebox(cur);
+        return in.pick(cur, en, step);
+    }
 };
 
 // ---- state-guided schedule -------------------------------------------------------------------------------------------
@@ -586,25 +895,28 @@ int main(int argc, char** argv) {
     } else return 2;
 
     // after a deadlock the main body never reached collect(); the arenas are still alive (their threads are stuck)
-    if (r.deadlock && g_arenas.empty()) for (arena* a : g_seen_arenas) collect(a);
-    // names (the symbol table is only used for printing, so naming after the run covers the whole log)
-    int k = 0;
-    std::map<const void*, std::string> spname;
-    for (const void* p : g_sps) {
-        const suspend_point_type* sp = static_cast<const suspend_point_type*>(p);
-        std::string n = "sp" + std::to_string(k++);
-        spname[p] = n;
-        verif::name_addr(&sp->m_stack_state, n + ".ss");
-        verif::name_addr(&sp->m_is_owner_recalled, n + ".rc");
-        verif::name_value((uint64_t)p, n);
-    }
+    // arenas that were seen by the sampler but not collected by the main body (deadlock, or an arena the main thread never
+    // looked at): name their words too (only arenas that are certainly alive: after a deadlock every seen arena is)
+    if (r.deadlock) for (arena* a : g_arena_ix) collect(a);
     // the arena of the thread that made suspension 0 (by saved address: the arena may be gone by now)
     if (S[0].pooladdr) verif::name_addr(S[0].pooladdr, "poolL");
     if (S[0].rtsaddr) verif::name_addr(S[0].rtsaddr, "rtsL");
     if (S[0].ctsaddr) verif::name_addr(S[0].ctsaddr, "ctsL");
-    for (auto& kv : spname) printf("sp %s %s\n", kv.second.c_str(), g_spkind.count(kv.first) ? g_spkind[kv.first].c_str() : "co");
+    for (size_t i = 0; i < g_dinfo.size(); ++i)
+        if (g_dinfo[i].had_sp) printf("sp D%zu %s\n", i, g_dinfo[i].kind.c_str());
+    for (size_t i = 0; i < g_dinfo.size(); ++i) printf("disp D%zu %s\n", i, g_dinfo[i].kind.c_str());
+    // the log, in order; `reg` notes switch the names of addresses / pointer values on from their position
     for (auto& e : r.log) {
-        if (e.kind == verif::K_NOTE) { printf("e %s\n", verif::format_event(e).c_str()); continue; }
+        if (e.kind == verif::K_NOTE) {
+            if (e.tag && !strcmp(e.tag, "reg")) {
+                const Reg& g = g_regs[e.a];
+                if (!g.is_val && (g.addr == S[0].rtsaddr || g.addr == S[0].ctsaddr)) continue;   // these keep their names rtsL / ctsL
+                if (g.is_val) verif::name_value(g.val, g.name); else verif::name_addr(g.addr, g.name);
+                continue;
+            }
+            printf("e %s\n", verif::format_event(e).c_str());
+            continue;
+        }
         if (!e.addr) continue;
         std::string n = verif::addr_name(e.addr);
         if (n.compare(0, 4, "anon") != 0) printf("e %s\n", verif::format_event(e).c_str());
@@ -627,6 +939,7 @@ int main(int argc, char** argv) {
         if (S[i].concurrent_cont) viol("suspension " + si + ": continuation ran on two threads at once");
         if (S[i].resume_calls != 1 && !r.deadlock) viol("harness: resume called " + std::to_string(S[i].resume_calls) + " times for suspension " + si);
     }
+    printf("stat count_samples %ld\n", g_count_samples);
     printf("mon %s\n", g_viol.empty() ? "ok" : g_viol[0].c_str());
     for (size_t i = 1; i < g_viol.size(); ++i) printf("mon+ %s\n", g_viol[i].c_str());
     for (int i = 0; i < g_NS; ++i)
@@ -636,7 +949,8 @@ int main(int argc, char** argv) {
                (int)(S[i].co_seen && S[i].co_iso_first == 0 && S[i].co_iso_max == 0));
     for (size_t i = 0; i < g_guide_picks.size(); ++i)
         printf("stat guide %zu picks %ld pool %d ws %d blk %d\n", i, g_guide_picks[i].picks, g_guide_picks[i].pool, g_guide_picks[i].ws, g_guide_picks[i].blk);
-    printf("stat steps %zu work_runs %d nsps %zu deadlock %d\n", r.steps, g_work_runs, g_sps.size(), (int)r.deadlock);
+    printf("stat steps %zu work_runs %d nsps %zu deadlock %d evictions %d ring_pops %d ring_pushes %d switches %d ndisp %zu\n", r.steps, g_work_runs, g_sps.size(), (int)r.deadlock,
+           g_evictions, g_ring_pops, g_ring_pushes, g_switches, g_dinfo.size());
     printf("sched %s\n", rle(r.schedule).c_str());
     fflush(stdout);
     if (r.deadlock) _exit(3);
